@@ -218,7 +218,7 @@ ObsFlags(w, ev) ==
       aliveBad == {i \in 1..n : o.alive[i] # (~DeadOrUnknown(w, o.hs[i]))}
       wBad == {i \in 1..n : o.walive[i] # 2 /\ o.hs[i] \in w.issued /\ w.merged[o.hs[i]]
                             /\ (o.walive[i] = 1) # (w.status[o.hs[i]] # "dead")}
-      joinBad == o.join # SortedById(nd)
+      joinBad == o.join # SortedById(nd) \/ (Has(o, "joinl") /\ o.joinl # SortedById(nd))
       stBad == {p \in (1..Len(o.st)) \X (1..n) : o.st[p[1]].get[p[2]] # Cur(w, p[1], o.hs[p[2]])}
       maskBad == {s \in 1..Len(o.st) :
                     (SeqToSet(o.st[s].mask) \ w.resid[s]) # {h[1] : h \in DOMAIN w.comp[s]}
@@ -227,7 +227,7 @@ ObsFlags(w, ev) ==
                ELSE {s \in 1..Len(o.st) : Has(o.st[s], "evs") /\ ~EvMatch(w.evq[s], o.st[s].evs)}
   IN   {F(AliveProp(w, ev), "is_alive mismatch", o.hs[i]) : i \in aliveBad}
   \cup {F("C02", "World::is_alive mismatch", o.hs[i]) : i \in wBad}
-  \cup (IF joinBad THEN {F(AliveProp(w, ev), "entities join mismatch", o.join)} ELSE {})
+  \cup (IF joinBad THEN {F(AliveProp(w, ev), "entities join mismatch (join, lending join)", <<o.join, IF Has(o, "joinl") THEN o.joinl ELSE <<>>>>)} ELSE {})
   \cup {F(CompProp(w, ev, o.hs[p[2]]), "component lookup mismatch", <<p[1], o.hs[p[2]], o.st[p[1]].get[p[2]]>>) : p \in stBad}
   \cup {F(CompProp(w, ev, <<-1, -1>>), "mask mismatch", s) : s \in maskBad}
   \cup {F("C12", "event stream mismatch (storage, expected, received)", <<s, w.evq[s], o.st[s].evs>>) : s \in evBad}
